@@ -1,6 +1,7 @@
 -- property theorems: SpqProofs/Properties/Cxx.lean ; helper lemmas: SpqProofs/Lemmas/*.lean
 import SpqProofs.Properties.C05
 import SpqProofs.Properties.C08
+import SpqProofs.Properties.C09
 import SpqProofs.Properties.C11
 import SpqProofs.Properties.C12
 import SpqProofs.Properties.C13
